@@ -826,8 +826,11 @@ func Run(r *hk.Run) {
 		g.compaction(230, false, "compaction-b")
 		g.crashPrefixes(3, false)
 		lap("compaction-b")
-		g.big(10350)
+		g.big(1600)
 		lap("big")
+		g.fullThreshold(9950, "full-threshold-over")
+		g.fullThreshold(9898, "full-threshold-exact")
+		lap("full-threshold")
 	} else {
 		g.tamperMatrix([]int{1, 0x80}, 1)
 		lap("tamper-matrix")
@@ -841,18 +844,19 @@ func Run(r *hk.Run) {
 	r.Note("secrecy proper (that `0x02 || age(...)` reveals nothing about the plaintext) and the integrity of age/X25519/ChaCha20-Poly1305 are assumed, not checked; the oracle searches the stored bytes and names for plaintext material and tries every listed modification")
 }
 
-// big: enough receives to cross FullMetaBlobSize lines in one meta blob (thorough only)
+// big: a long untampered history (thorough only): the packed meta blob grows over many compactions
 func (g *gen) big(n int) {
 	g.begin("big")
 	for i := 1; i <= n; i++ {
 		g.recv("recv", g.freshData(12))
 		calls := g.op("calls")
+		g.uploadFirst(calls, 2)
 		if strings.Contains(calls, "M-") {
 			g.r.Hit("compaction:during-receive")
 			g.op("sum")
-			g.leakScan()
 		}
-		if i%1000 == 0 {
+		g.leakScan()
+		if i%250 == 0 {
 			g.pointCheck(true)
 		}
 	}
@@ -866,5 +870,53 @@ func (g *gen) big(n int) {
 		g.op(fmt.Sprintf("fetch @%d", j+1))
 		g.checkFetch(g.e.w, "live", g.e.labels[j], true)
 	}
+	g.crashPrefixes(7, false)
 	g.r.Distinct(fmt.Sprintf("big:%d", n))
+}
+
+// fullThreshold drives recordMeta / makePackedMetaBlob across FullMetaBlobSize lines without ten thousand
+// receives: a data blob whose plaintext is a meta blob of `lines` lines is received and its ciphertext
+// planted in the meta store (tampering, so only the fetch and leak oracles apply); after a restart the heap
+// holds an entry of that many lines and the next compaction packs past (or exactly to) the threshold.
+func (g *gen) fullThreshold(lines int, label string) {
+	g.begin(label)
+	g.recv("recv", g.freshData(20))
+	var sb strings.Builder
+	sb.WriteString(metaHeader)
+	for i := 0; i < lines; i++ {
+		p := blob.RefFromBytes([]byte(fmt.Sprintf("ghost plain %d", i))).String()
+		c := blob.RefFromBytes([]byte(fmt.Sprintf("ghost cipher %d", i))).String()
+		fmt.Fprintf(&sb, "%s/%d/%s\n", p, i%1000, c)
+	}
+	g.op("recv " + hk.Hex([]byte(sb.String())))
+	g.op("plant M E2")
+	g.tampered = true
+	g.restart("wipe", false)
+	g.op("calls")
+	g.op("sum")
+	for i := 0; i < 215; i++ {
+		g.recv("recv", g.freshData(14))
+		calls := g.op("calls")
+		g.uploadFirst(calls, 2)
+		if strings.Contains(calls, "M-") {
+			g.r.Hit("compaction:across-full-threshold")
+			g.op("sum")
+		}
+		if i == 120 || i == 214 {
+			// the scan meets a meta blob of >= FullMetaBlobSize lines
+			g.restart("keep", true)
+			g.op("calls")
+			g.op("sum")
+		}
+	}
+	g.leakScan()
+	for i := 0; i < 40; i++ {
+		j := g.r.R.Intn(len(g.e.labels))
+		if j == 1 {
+			continue
+		}
+		g.op(fmt.Sprintf("fetch @%d", j+1))
+		g.checkFetch(g.e.w, "full-threshold", g.e.labels[j], true)
+	}
+	g.r.Distinct(fmt.Sprintf("%s:%d", label, lines))
 }
